@@ -20,7 +20,7 @@ func init() { core.Register(check{}) }
 func (check) ID() string    { return "C20" }
 func (check) Level() string { return "exploration" }
 func (check) Rule() string {
-	return "bounded-exhaustive enumeration, simplest first. 32-bit kinds (int32,uint32,sint32/zig-zag32,fixed32,sfixed32,float,enum): quick = every value with <=2 non-zero bytes plus +-2^k+d (|d|<=2) boundaries, thorough = all 2^32 values (256 groups x 256 cases x 65536 values); 64-bit kinds: every +-2^k+d, every 7-bit varint-length boundary +-1, every value with <=2 non-zero bytes over a byte alphabet (quick: {01,7f,80,ff}, thorough: all 255); varint decoder: all byte strings of length <=6 (quick) / <=11 (thorough) over {00,01,7f,80,ff} plus all strings of length <=2 (quick) / <=3 (thorough) over all 256 bytes, every truncation of every valid encoding; tags over number x wire-type alphabets; length-delimited payload lengths around every length-varint boundary; speculative length finishing; descriptor-driven writer/reader over the generated programs (scalars, lists, maps for every key kind, nested/recursive) x Go-value forms x {field name, field number} x cast x copy. One case of the scalar sweeps covers a block of values (counter `values`). A case is non-trivial if it is distinct by (operation, input block) and wrote+read at least one byte. Later additions: announced lengths around 2^7..2^63/2^64 beyond the input, same-simple-name program, congruent-tag program in controlled wire order. Round 8: pooled-objects group (histories of length 2 on the deterministic pool)."
+	return "bounded-exhaustive enumeration, simplest first. 32-bit kinds (int32,uint32,sint32/zig-zag32,fixed32,sfixed32,float,enum): quick = every value with <=2 non-zero bytes plus +-2^k+d (|d|<=2) boundaries, thorough = all 2^32 values (256 groups x 256 cases x 65536 values); 64-bit kinds: every +-2^k+d, every 7-bit varint-length boundary +-1, every value with <=2 non-zero bytes over a byte alphabet (quick: {01,7f,80,ff}, thorough: all 255); varint decoder: all byte strings of length <=6 (quick) / <=11 (thorough) over {00,01,7f,80,ff} plus all strings of length <=2 (quick) / <=3 (thorough) over all 256 bytes, every truncation of every valid encoding; tags over number x wire-type alphabets; length-delimited payload lengths around every length-varint boundary; speculative length finishing; descriptor-driven writer/reader over the generated programs (scalars, lists, maps for every key kind, nested/recursive) x Go-value forms x {field name, field number} x cast x copy. One case of the scalar sweeps covers a block of values (counter `values`). A case is non-trivial if it is distinct by (operation, input block) and wrote+read at least one byte. Later additions: announced lengths around 2^7..2^63/2^64 beyond the input, same-simple-name program, congruent-tag program in controlled wire order. Round 8: pooled-objects group (histories of length 2 on the deterministic pool). Round 10: strict (disallowUnknown) reader and writer on every descriptor round trip."
 }
 
 func (check) Assumptions() []string {
